@@ -622,6 +622,143 @@ Proof.
   apply exclude_spec. split; [exact Hh|]. intros [->|Hx]; [apply Hne; reflexivity | exact (Hex Hx)].
 Qed.
 
+(* ---- the bully election's outcome ---- *)
+
+Lemma bully_step_in : forall s self cur b, bully_step s self cur b = cur \/ bully_step s self cur b = self
+                                           \/ bully_step s self cur b = bmsg_from b.
+Proof.
+  intros s self cur b. destruct b as [p|p|p]; cbn [bully_step bmsg_from].
+  - destruct (higher_coded s p cur || N.eqb p self); auto.
+  - destruct (higher_coded s p self); auto.
+  - auto.
+Qed.
+
+Lemma fold_bully_in : forall s self bs cur,
+  In (fold_left (bully_step s self) bs cur) (cur :: self :: map bmsg_from bs).
+Proof.
+  intros s self. induction bs as [|b r IH]; intros cur; cbn [fold_left map].
+  - left. reflexivity.
+  - specialize (IH (bully_step s self cur b)).
+    destruct IH as [H|[H|H]].
+    + rewrite <- H. destruct (bully_step_in s self cur b) as [E|[E|E]]; rewrite E.
+      * left. reflexivity.
+      * right. left. reflexivity.
+      * right. right. left. reflexivity.
+    + right. left. exact H.
+    + right. right. right. exact H.
+Qed.
+
+(* the election ends with this relayer or with the sender of one of the announcements *)
+Lemma bully_coded_in : forall key self bs cands,
+  In (bully_coded key self bs cands) (self :: map bmsg_from bs).
+Proof.
+  intros key self bs cands. unfold bully_coded.
+  destruct (fold_bully_in (sort_peers key cands) self bs self) as [H|H]; [left; exact H | exact H].
+Qed.
+
+(* the repaired rule: whatever peers outside the candidate list send - Election, Alive, Select messages,
+   at whatever point of the election - the outcome is this relayer or a candidate ... *)
+Lemma bully_strict_guarded : forall key self bs cands,
+  bully_guarded (bully_strict key self bs cands) self cands = true.
+Proof.
+  intros key self bs cands. unfold bully_guarded, bully_strict. apply memb_In.
+  destruct (bully_coded_in key self (filter (from_candidate cands) bs) cands) as [H|H]; [left; exact H|].
+  right. apply in_map_iff in H. destruct H as [b [Hb Hin]]. apply filter_In in Hin. destruct Hin as [_ Hc].
+  unfold from_candidate in Hc. rewrite Hb in Hc. apply memb_In. exact Hc.
+Qed.
+
+(* ... and it is the outcome of the election in which those messages never arrived *)
+Lemma bully_strict_ignores : forall key self bs cands,
+  bully_strict key self bs cands = bully_strict key self (filter (from_candidate cands) bs) cands.
+Proof.
+  intros key self bs cands. unfold bully_strict. f_equal.
+  induction bs as [|b r IH]; cbn [filter]; [reflexivity|].
+  destruct (from_candidate cands b) eqn:E; cbn [filter]; [rewrite E; f_equal; exact IH | exact IH].
+Qed.
+
+Lemma bully_strict_candidates_only : forall key self bs cands,
+  forallb (from_candidate cands) bs = true -> bully_strict key self bs cands = bully_coded key self bs cands.
+Proof.
+  intros key self bs cands H. unfold bully_strict. f_equal.
+  induction bs as [|b r IH]; cbn [filter]; [reflexivity|].
+  cbn [forallb] in H. apply andb_true_iff in H. destruct H as [Hb Hr]. rewrite Hb. f_equal. exact (IH Hr).
+Qed.
+
+Lemma index_of_none : forall p l i, ~ In p l -> index_of p l i = None.
+Proof.
+  intros p. induction l as [|x r IH]; intros i H; cbn [index_of]; [reflexivity|].
+  destruct (N.eqb x p) eqn:E.
+  - apply N.eqb_eq in E. subst. exfalso. apply H. left. reflexivity.
+  - apply IH. intros Hin. apply H. right. exact Hin.
+Qed.
+
+(* as coded: a relayer whose current coordinator is the FIRST candidate ignores the announcement of a
+   peer outside the candidate list ... *)
+Lemma bully_coded_first_ignores : forall s self cur x,
+  rank_coded s cur = 0%nat -> ~ In x s -> x <> self -> bully_step s self cur (BSelect x) = cur.
+Proof.
+  intros s self cur x Hr Hx Hne. cbn [bully_step]. unfold higher_coded, rank_coded at 1.
+  rewrite (index_of_none x s 0 Hx), Hr. cbn [Nat.ltb Nat.leb orb].
+  assert (E : N.eqb x self = false) by (apply N.eqb_neq; exact Hne). rewrite E. reflexivity.
+Qed.
+
+(* ... but every other relayer accepts it: the peer ranks level with the first candidate *)
+Lemma bully_coded_open_seat : forall s self cur x,
+  (0 < rank_coded s cur)%nat -> ~ In x s -> bully_step s self cur (BSelect x) = x.
+Proof.
+  intros s self cur x Hr Hx. cbn [bully_step]. unfold higher_coded, rank_coded at 1.
+  rewrite (index_of_none x s 0 Hx).
+  assert (E : (0 <? rank_coded s cur)%nat = true) by (apply Nat.ltb_lt; exact Hr). rewrite E. reflexivity.
+Qed.
+
+(* ---- a relayer that waits for the coordinator [c2] is moved by [c2] only ---- *)
+
+Lemma readies_of_app : forall a b, readies_of (a ++ b) = readies_of a ++ readies_of b.
+Proof. intros. unfold readies_of. apply flat_map_app. Qed.
+Lemma runs_of_app : forall a b, runs_of (a ++ b) = runs_of a ++ runs_of b.
+Proof. intros. unfold runs_of. apply flat_map_app. Qed.
+
+Lemma timed_run_from_coord : forall wc c2 timeout watch msgs deadline st,
+  (forall p, In p (readies_of (tr_outs (timed_run wc (Some c2) timeout watch deadline st msgs))) -> p = c2)
+  /\ (forall r, In r (runs_of (tr_outs (timed_run wc (Some c2) timeout watch deadline st msgs))) ->
+        fst r = false /\ exists at_, In (at_, MStart c2 (Some (snd r))) msgs).
+Proof.
+  intros wc c2 timeout watch. induction msgs as [|[at_ m] r IH]; intros deadline st; cbn [timed_run].
+  - split; intros x Hx; destruct Hx.
+  - destruct st; try (split; intros x Hx; destruct Hx; fail).
+    + destruct (watch <=? at_)%N; [split; intros x Hx; destruct Hx|].
+      cbn [is_waiting andb]. destruct (deadline <=? at_)%N; [split; intros x Hx; destruct Hx|].
+      destruct (wait_step2 wc (Some c2) Waiting m) as [st' o] eqn:Hstep. cbn [tr_outs].
+      rewrite readies_of_app, runs_of_app.
+      match goal with |- context [timed_run wc (Some c2) timeout watch ?d st' r] => destruct (IH d st') as [IH1 IH2] end.
+      split.
+      * intros p Hp. apply in_app_or in Hp. destruct Hp as [Hp|Hp]; [|exact (IH1 p Hp)].
+        destruct m as [f|f ps|f]; cbn [wait_step2 from_ok] in Hstep.
+        -- destruct (N.eqb f c2) eqn:E; inversion Hstep; subst; cbn in Hp; [|destruct Hp].
+           destruct Hp as [<-|[]]. apply N.eqb_eq. exact E.
+        -- destruct (N.eqb f c2); [destruct ps|]; inversion Hstep; subst; cbn in Hp; destruct Hp.
+        -- destruct (fail_ok wc f); inversion Hstep; subst; cbn in Hp; destruct Hp.
+      * intros x Hx. apply in_app_or in Hx. destruct Hx as [Hx|Hx].
+        -- destruct m as [f|f ps|f]; cbn [wait_step2 from_ok] in Hstep.
+           ++ destruct (N.eqb f c2); inversion Hstep; subst; cbn in Hx; destruct Hx.
+           ++ destruct (N.eqb f c2) eqn:E; [destruct ps as [l|]|]; inversion Hstep; subst; cbn in Hx; try (destruct Hx; fail).
+              destruct Hx as [<-|[]]. cbn [fst snd]. split; [reflexivity|]. exists at_. left.
+              apply N.eqb_eq in E. subst. reflexivity.
+           ++ destruct (fail_ok wc f); inversion Hstep; subst; cbn in Hx; destruct Hx.
+        -- destruct (IH2 x Hx) as [Hf [a Ha]]. split; [exact Hf|]. exists a. right. exact Ha.
+    + destruct (watch <=? at_)%N; [split; intros x Hx; destruct Hx|].
+      cbn [is_waiting andb].
+      destruct (wait_step2 wc (Some c2) Running m) as [st' o] eqn:Hstep. cbn [tr_outs].
+      rewrite readies_of_app, runs_of_app.
+      match goal with |- context [timed_run wc (Some c2) timeout watch ?d st' r] => destruct (IH d st') as [IH1 IH2] end.
+      assert (Ho : readies_of o = [] /\ runs_of o = []).
+      { destruct m as [f|f ps|f]; cbn [wait_step2] in Hstep; try (inversion Hstep; subst; split; reflexivity).
+        destruct (fail_ok wc f); inversion Hstep; subst; split; reflexivity. }
+      destruct Ho as [Ho1 Ho2]. rewrite Ho1, Ho2. cbn [app]. split.
+      * exact IH1.
+      * intros x Hx. destruct (IH2 x Hx) as [Hf [a Ha]]. split; [exact Hf|]. exists a. right. exact Ha.
+Qed.
+
 (* ---- the judge accepts the model ---- *)
 
 Lemma skipn_exact_nil : forall (A : Type) (a : list A), skipn (length a) a = [].
@@ -630,27 +767,41 @@ Proof. intros A a. rewrite <- (app_nil_r a) at 2. apply skipn_app_exact. Qed.
 Lemma firstn_app_exact : forall (A : Type) (a b : list A), firstn (length a) (a ++ b) = a.
 Proof. intros A a b. induction a as [|x r IH]; cbn [length firstn app]; [destruct b; reflexivity | rewrite IH; reflexivity]. Qed.
 
-Lemma obs_allows_classified : forall (key : peer -> N) tm m holders t self unreach runs1 e winner ready2 msgs2,
+Definition br_guarded (br : peer -> list bmsg -> list peer -> peer) (holders : list peer) (self : peer)
+           (bs : list bmsg) (e : err) : Prop :=
+  forall ps, classify e = RetryExcluding ps ->
+             bully_guarded (br self bs (exclude holders ps)) self (exclude holders ps) = true.
+
+Lemma obs_allows_classified : forall (key : peer -> N) tm m br holders t self unreach runs1 e bs ready2 msgs2,
   In self holders -> wf_table m holders ->
-  (forall ps, classify e = RetryExcluding ps -> ~ In self ps) ->
+  br_guarded br holders self bs e ->
   classify e <> GiveUp ->
   obs_allows (mkEnv tm holders t self unreach ready2 msgs2) (length runs1)
-    (continue key tm m classify holders t self true runs1 e winner ready2 msgs2) (classify e) = true.
+    (continue key tm m br classify holders t self true runs1 e bs ready2 msgs2) (classify e) = true.
 Proof.
-  intros key tm m holders t self unreach runs1 e winner ready2 msgs2 Hsh Hwf Hself Hng.
+  intros key tm m br holders t self unreach runs1 e bs ready2 msgs2 Hsh Hwf Hbr Hng.
   unfold continue, after_failure_with. cbn [negb].
   destruct (classify e) as [ps| | |] eqn:Hc; [| | congruence |].
   - (* retry *)
-    destruct (N.eqb (bully_result key self winner (exclude holders ps)) self).
+    specialize (Hbr ps Hc).
+    unfold obs_allows. cbn [e_self].
+    destruct (memb self ps) eqn:Hself.
+    { (* the failure names this relayer itself *)
+      destruct (N.eqb (br self bs (exclude holders ps)) self).
+      - destruct (initiate key holders t ps [self] ready2) as [calls ann]. reflexivity.
+      - reflexivity. }
+    apply memb_false_In in Hself.
+    destruct (N.eqb (br self bs (exclude holders ps)) self) eqn:Hc2.
     + destruct (initiate key holders t ps [self] ready2) as [calls ann] eqn:Hinit.
-      unfold obs_allows. cbn [o_elected o_runs o_calls2 o_inits2 o_starts e_holders e_t e_self e_unreach e_ready2].
+      cbn [o_elected o_runs o_calls2 o_inits2 o_starts o_ready2 e_holders e_t e_self e_unreach e_ready2 e_msgs2].
       rewrite skipn_app_exact.
-      rewrite (same_set_perm _ _ (sort_perm key (exclude holders ps))). cbn [andb].
+      rewrite (same_set_perm _ _ (sort_perm key (exclude holders ps))). cbn [andb forallb].
       repeat (apply andb_true_iff; split).
+      * destruct ann as [sub|]; reflexivity.
       * destruct ann as [sub|]; cbn [forallb fst snd]; [|reflexivity].
         rewrite andb_true_r. apply forallb_forall. intros p Hp. apply negb_true_iff. apply memb_false_In.
         intros Hps.
-        pose proof (announced_subset_spec key holders t ps self ready2 calls sub Hsh (Hself ps eq_refl) Hinit) as Hspec.
+        pose proof (announced_subset_spec key holders t ps self ready2 calls sub Hsh Hself Hinit) as Hspec.
         destruct Hspec as [_ [_ [_ [_ [_ Hex]]]]]. exact (Hex p Hp Hps).
       * apply forallb_forall. intros c Hin. apply in_map_iff in Hin. destruct Hin as [r [<- _]].
         cbn [snd]. apply same_set_refl.
@@ -660,10 +811,22 @@ Proof.
       * pose proof (told_starts_of m holders self ps (match ann with Some sub => [(true, sub)] | None => [] end)
                       (starts_of m runs1) [] Hwf) as Ht.
         rewrite app_nil_r in Ht. exact Ht.
-    + unfold obs_allows. cbn [o_elected o_runs o_calls2 o_inits2 o_starts e_holders e_t e_self e_unreach e_ready2].
+    + (* another peer won: by [Hbr] it is a candidate, and only its messages move this relayer *)
+      assert (Hcand : In (br self bs (exclude holders ps)) (exclude holders ps)).
+      { unfold bully_guarded in Hbr. apply memb_In in Hbr. destruct Hbr as [E|Hin]; [|exact Hin].
+        rewrite <- E in Hc2. rewrite N.eqb_refl in Hc2. discriminate. }
+      set (c2 := br self bs (exclude holders ps)) in *.
+      unfold retry_start_wait, timed_wait. cbn [fst snd].
+      destruct (timed_run_from_coord None c2 (start_wait_timeout tm) (watch_timeout tm) msgs2 (start_wait_timeout tm) Waiting)
+        as [Hrd Hrn].
+      cbn [o_elected o_runs o_calls2 o_inits2 o_starts o_ready2 e_holders e_t e_self e_unreach e_ready2 e_msgs2].
       rewrite skipn_app_exact.
       rewrite (same_set_perm _ _ (sort_perm key (exclude holders ps))). cbn [andb forallb].
       repeat (apply andb_true_iff; split); try reflexivity.
+      * apply forallb_forall. intros p Hp. rewrite (Hrd p Hp). apply memb_In. exact Hcand.
+      * apply forallb_forall. intros r Hr. destruct (Hrn r Hr) as [Hf [a Ha]]. rewrite Hf.
+        unfold started_by. apply existsb_exists. exists (a, MStart c2 (Some (snd r))). split; [exact Ha|].
+        cbn [snd]. apply andb_true_iff. split; [apply memb_In; exact Hcand | apply list_peer_eqb_refl].
       * eapply forallb_impl; [|apply runs_of_flags].
         intros r Hr. apply negb_true_iff in Hr. rewrite Hr. reflexivity.
       * apply told_no_coord. apply runs_of_flags.
@@ -677,32 +840,43 @@ Proof.
 Qed.
 
 (* every continuation keeps the first attempt's runs and start broadcasts in front *)
-Lemma continue_prefix : forall (key : peer -> N) tm m cl holders t self retryable runs1 e winner ready2 msgs2,
+Lemma continue_prefix : forall (key : peer -> N) tm m br cl holders t self retryable runs1 e bs ready2 msgs2,
   exists r2 s2,
-    o_runs (continue key tm m cl holders t self retryable runs1 e winner ready2 msgs2) = runs1 ++ r2
-    /\ o_starts (continue key tm m cl holders t self retryable runs1 e winner ready2 msgs2) = starts_of m runs1 ++ s2.
+    o_runs (continue key tm m br cl holders t self retryable runs1 e bs ready2 msgs2) = runs1 ++ r2
+    /\ o_starts (continue key tm m br cl holders t self retryable runs1 e bs ready2 msgs2) = starts_of m runs1 ++ s2.
 Proof.
   intros. unfold continue.
   destruct (after_failure_with cl retryable holders e) as [| |cands ex|].
   - exists [], []. cbn [o_runs o_starts]. rewrite !app_nil_r. split; reflexivity.
   - exists [], []. cbn [o_runs o_starts]. rewrite !app_nil_r. split; reflexivity.
-  - destruct (N.eqb (bully_result key self winner cands) self).
+  - destruct (N.eqb (br self bs cands) self).
     + destruct (initiate key holders t ex [self] ready2) as [calls ann].
       eexists. eexists. cbn [o_runs o_starts]. split; reflexivity.
     + eexists. exists []. cbn [o_runs o_starts]. split; [reflexivity | rewrite app_nil_r; reflexivity].
   - eexists. exists []. cbn [o_runs o_starts]. split; [reflexivity | rewrite app_nil_r; reflexivity].
 Qed.
 
-Lemma spec_ok_model : forall (key : peer -> N) tm m holders t self unreach retryable runs1 e winner ready2 msgs2,
-  In self holders -> wf_table m holders ->
-  (forall ps, classify e = RetryExcluding ps -> ~ In self ps) ->
-  spec_ok (mkEnv tm holders t self unreach ready2 msgs2) retryable e (length runs1)
-    (continue key tm m classify holders t self retryable runs1 e winner ready2 msgs2) = true.
+Lemma continue_no_panic : forall (key : peer -> N) tm m br cl holders t self retryable runs1 e bs ready2 msgs2,
+  N.eqb (o_final (continue key tm m br cl holders t self retryable runs1 e bs ready2 msgs2)) FPanic = false.
 Proof.
-  intros key tm m holders t self unreach retryable runs1 e winner ready2 msgs2 Hsh Hwf Hself.
+  intros. unfold continue.
+  destruct (after_failure_with cl retryable holders e) as [| |cands ex|]; try reflexivity.
+  - destruct (N.eqb (br self bs cands) self).
+    + destruct (initiate key holders t ex [self] ready2) as [calls ann]. reflexivity.
+    + cbn [o_final]. destruct (has_bad _ || _); reflexivity.
+  - cbn [o_final]. destruct (has_bad _ || _); reflexivity.
+Qed.
+
+Lemma spec_ok_model : forall (key : peer -> N) tm m br holders t self unreach retryable runs1 e bs ready2 msgs2,
+  In self holders -> wf_table m holders ->
+  br_guarded br holders self bs e ->
+  spec_ok (mkEnv tm holders t self unreach ready2 msgs2) retryable e (length runs1)
+    (continue key tm m br classify holders t self retryable runs1 e bs ready2 msgs2) = true.
+Proof.
+  intros key tm m br holders t self unreach retryable runs1 e bs ready2 msgs2 Hsh Hwf Hbr.
   pose proof (skipn_exact_nil _ runs1) as Hskip.
-  unfold spec_ok. apply andb_true_iff. split.
-  { destruct (continue_prefix key tm m classify holders t self retryable runs1 e winner ready2 msgs2) as [r2 [s2 [Hr Hs]]].
+  unfold spec_ok. rewrite continue_no_panic. cbn [negb andb]. apply andb_true_iff. split.
+  { destruct (continue_prefix key tm m br classify holders t self retryable runs1 e bs ready2 msgs2) as [r2 [s2 [Hr Hs]]].
     rewrite Hr, Hs, firstn_app_exact. cbn [e_holders e_self].
     apply (told_starts_of m holders self [] runs1 [] s2 Hwf). }
   destruct retryable; cbn [negb].
@@ -718,19 +892,33 @@ Proof.
     unfold obs_allows. cbn [o_elected o_runs o_final]. rewrite Hskip. reflexivity.
 Qed.
 
-(* the ready messages are not the judge's subject *)
-Lemma spec_ok_with_readies : forall ev retryable e nfirst rs o,
-  spec_ok ev retryable e nfirst (with_readies rs o) = spec_ok ev retryable e nfirst o.
-Proof. reflexivity. Qed.
+(* with the repaired election rule the judge accepts the model's session whatever anybody sends during
+   the election *)
+Lemma spec_ok_model_strict : forall (key : peer -> N) tm m holders t self unreach retryable runs1 e bs ready2 msgs2,
+  In self holders -> wf_table m holders ->
+  spec_ok (mkEnv tm holders t self unreach ready2 msgs2) retryable e (length runs1)
+    (continue key tm m (bully_strict key) classify holders t self retryable runs1 e bs ready2 msgs2) = true.
+Proof.
+  intros. apply spec_ok_model; try assumption. intros ps _. apply bully_strict_guarded.
+Qed.
+
+(* as coded the judge accepts the model's session whenever the election's outcome is this relayer or a
+   candidate - in particular when only candidates take part in it *)
+Lemma bully_coded_candidates_guarded : forall key self bs cands,
+  forallb (from_candidate cands) bs = true -> bully_guarded (bully_coded key self bs cands) self cands = true.
+Proof.
+  intros key self bs cands H. rewrite <- (bully_strict_candidates_only key self bs cands H). apply bully_strict_guarded.
+Qed.
 
 (* a coordinator that is unresponsive in the sense of the specification - whatever other peers send
    meanwhile - is classified as such: the judge's demand (the CoordinatorError retry) holds of the model *)
-Lemma silent_ok_model : forall (key : peer -> N) tm m holders t self unreach retryable msgs1 winner ready2 msgs2 c,
-  coordinator key holders = Some c -> In self holders -> self <> c -> wf_table m holders ->
+Lemma silent_ok_model : forall (key : peer -> N) tm m br holders t self unreach retryable msgs1 bs ready2 msgs2 c,
+  coordinator key holders = Some c -> In self holders -> wf_table m holders ->
+  bully_guarded (br self bs (exclude holders [c])) self (exclude holders [c]) = true ->
   silent_ok (mkEnv tm holders t self unreach ready2 msgs2) retryable c msgs1
-    (session_silent key tm m classify holders t self retryable msgs1 winner ready2 msgs2) = true.
+    (session_silent key tm m br classify holders t self retryable msgs1 bs ready2 msgs2) = true.
 Proof.
-  intros key tm m holders t self unreach retryable msgs1 winner ready2 msgs2 c Hc Hsh Hne Hwf.
+  intros key tm m br holders t self unreach retryable msgs1 bs ready2 msgs2 c Hc Hsh Hwf Hbr.
   unfold silent_ok. cbn [e_tm].
   destruct (coordinator_unresponsive tm c msgs1) eqn:Hu; [|reflexivity].
   unfold coordinator_unresponsive in Hu. apply andb_true_iff in Hu. destruct Hu as [Hlt Hall].
@@ -738,34 +926,33 @@ Proof.
   unfold session_silent. rewrite Hc. cbv zeta. unfold silent_wait, start_wait_timeout, watch_timeout.
   destruct (unresponsive_run tm c msgs1 (coord_to tm) Hlt Hall) as [Hst Hdl].
   rewrite Hst. apply N.ltb_lt in Hdl. rewrite Hdl.
-  rewrite spec_ok_with_readies.
-  apply (spec_ok_model key tm m holders t self unreach retryable [] _ winner ready2 msgs2 Hsh Hwf).
+  apply (spec_ok_model key tm m br holders t self unreach retryable [] _ bs ready2 msgs2 Hsh Hwf).
   intros ps Hps. assert (Hcl : classify (pool_join [Node (KCoord c) []]) = RetryExcluding [c]) by reflexivity.
-  rewrite Hcl in Hps. inversion Hps; subst. intros [H|[]]. apply Hne. symmetry. exact H.
+  rewrite Hcl in Hps. inversion Hps; subst. exact Hbr.
 Qed.
 
 (* two relayers: the judge accepts what the model's coordinator and the model's other relayer do *)
-Lemma duo_ok_model : forall (key : peer -> N) tm m holders t a c unreach ready1 msgs2,
+Lemma duo_ok_model : forall (key : peer -> N) tm m br holders t a c unreach ready1 msgs2,
   In c holders -> wf_table m holders ->
   duo_ok (mkEnv tm holders t c unreach [] msgs2) a
-    (duo_a key m holders t a ready1) (duo_c key tm m classify holders t a c ready1 msgs2) = true.
+    (duo_a key m holders t a ready1) (duo_c key tm m br classify holders t a c ready1 msgs2) = true.
 Proof.
-  intros key tm m holders t a c unreach ready1 msgs2 Hch Hwf.
+  intros key tm m br holders t a c unreach ready1 msgs2 Hch Hwf.
   unfold duo_ok, duo_a, duo_c. cbn [e_holders e_self].
   destruct (duo_subset key holders t a ready1) as [sub|]; [|reflexivity].
   cbn [o_runs o_starts]. apply andb_true_iff. split.
   { pose proof (told_starts_of m holders a [] [(true, sub)] [] [] Hwf) as Ht. rewrite app_nil_r in Ht. exact Ht. }
   destruct (memb c sub) eqn:Hm; [reflexivity|].
-  destruct (continue_prefix key tm m classify holders t c true [(false, sub)] left_out_error None [] msgs2)
+  destruct (continue_prefix key tm m br classify holders t c true [(false, sub)] left_out_error [] [] msgs2)
     as [r2 [s2 [Hr _]]].
   rewrite Hr. cbn [app]. rewrite list_peer_eqb_refl. cbn [andb].
-  apply (spec_ok_model key tm m holders t c unreach true [(false, sub)] left_out_error None [] msgs2 Hch Hwf).
+  apply (spec_ok_model key tm m br holders t c unreach true [(false, sub)] left_out_error [] [] msgs2 Hch Hwf).
   intros ps Hps. assert (Hcl : classify left_out_error = WaitForStart) by reflexivity. rewrite Hcl in Hps. discriminate.
 Qed.
 
 (* what an accepted observation means, case by case *)
 Lemma obs_allows_retry_sound : forall ev nfirst o ps,
-  obs_allows ev nfirst o (RetryExcluding ps) = true ->
+  obs_allows ev nfirst o (RetryExcluding ps) = true -> ~ In (e_self ev) ps ->
   exists cs, o_elected o = Some cs
     /\ (forall p, In p ps -> ~ In p cs)
     /\ (forall p, In p (e_holders ev) -> ~ In p ps -> In p cs)
@@ -776,14 +963,21 @@ Lemma obs_allows_retry_sound : forall ev nfirst o ps,
     (* and everybody else is told *)
     /\ (forall sub, In (true, sub) (skipn nfirst (o_runs o)) ->
         exists to, In (sub, to) (o_starts o)
-                   /\ forall p, In p (e_holders ev) -> p <> e_self ev -> ~ In p ps -> In p to).
+                   /\ forall p, In p (e_holders ev) -> p <> e_self ev -> ~ In p ps -> In p to)
+    (* whoever it treats as coordinator of the replacement attempt is a key holder that is not a culprit *)
+    /\ (forall p, In p (o_ready2 o) -> In p (e_holders ev) /\ ~ In p ps)
+    /\ (forall l, In (false, l) (skipn nfirst (o_runs o)) ->
+        exists at_ f, In (at_, MStart f (Some l)) (e_msgs2 ev) /\ In f (e_holders ev) /\ ~ In f ps).
 Proof.
-  intros ev nfirst o ps H. unfold obs_allows in H.
+  intros ev nfirst o ps H Hself. unfold obs_allows in H.
+  apply memb_false_In in Hself. rewrite Hself in H.
   destruct (o_elected o) as [cs|]; [|discriminate]. exists cs. split; [reflexivity|].
   apply andb_true_iff in H. destruct H as [H H5]. apply andb_true_iff in H. destruct H as [H H4].
-  apply andb_true_iff in H. destruct H as [H H3]. apply andb_true_iff in H. destruct H as [H1 H2].
+  apply andb_true_iff in H. destruct H as [H H3]. apply andb_true_iff in H. destruct H as [H H2].
+  apply andb_true_iff in H. destruct H as [H H7]. apply andb_true_iff in H. destruct H as [H1 H6].
   unfold same_set in H1. apply andb_true_iff in H1. destruct H1 as [Ha Hb].
-  rewrite forallb_forall in Ha, Hb. repeat split.
+  rewrite forallb_forall in Ha, Hb.
+  refine (conj _ (conj _ (conj _ (conj _ (conj _ (conj _ _)))))).
   - intros p Hp Hc. specialize (Ha p Hc). apply memb_In in Ha. apply exclude_spec in Ha. tauto.
   - intros p Hh Hn. assert (Hin : In p (exclude (e_holders ev) ps)) by (apply exclude_spec; tauto).
     specialize (Hb p Hin). apply memb_In. exact Hb.
@@ -794,6 +988,23 @@ Proof.
     apply existsb_exists in H4. destruct H4 as [[b sub] [Hin Hb']]. cbn [fst] in Hb'. subst b.
     exists sub. exact Hin.
   - intros sub Hin. exact (told_sound _ _ _ _ _ H5 sub Hin).
+  - intros p Hp. rewrite forallb_forall in H6. specialize (H6 p Hp). apply memb_In in H6. apply exclude_spec in H6. tauto.
+  - intros l Hin. rewrite forallb_forall in H7. specialize (H7 _ Hin). cbn [fst snd] in H7.
+    unfold started_by in H7. apply existsb_exists in H7. destruct H7 as [[a mm] [Hm Hx]]. cbn [snd] in Hx.
+    destruct mm as [f|f [l'|]|f]; try discriminate.
+    apply andb_true_iff in Hx. destruct Hx as [Hf Hl]. apply list_peer_eqb_eq in Hl. subst l'.
+    apply memb_In in Hf. apply exclude_spec in Hf. exists a, f. tauto.
+Qed.
+
+(* a failure that names this relayer itself: all an accepted observation says is that it was not
+   turned into success *)
+Lemma obs_allows_retry_self_sound : forall ev nfirst o ps,
+  obs_allows ev nfirst o (RetryExcluding ps) = true -> In (e_self ev) ps ->
+  (exists cs, o_elected o = Some cs) \/ o_final o <> FNil.
+Proof.
+  intros ev nfirst o ps H Hself. unfold obs_allows in H. apply memb_In in Hself. rewrite Hself in H.
+  destruct (o_elected o) as [cs|]; [left; exists cs; reflexivity|].
+  right. apply negb_true_iff in H. apply N.eqb_neq in H. exact H.
 Qed.
 
 Lemma obs_allows_giveup_sound : forall ev nfirst o,
@@ -822,17 +1033,20 @@ Qed.
 (* an accepted silent-coordinator session: with an unresponsive coordinator [c] and a retryable
    process the relayer held an election without [c] - whatever the other peers sent meanwhile *)
 Lemma silent_ok_sound : forall ev c msgs1 o,
-  silent_ok ev true c msgs1 o = true -> coordinator_unresponsive (e_tm ev) c msgs1 = true ->
-  exists cs, o_elected o = Some cs /\ ~ In c cs /\ (forall p, In p (e_holders ev) -> p <> c -> In p cs).
+  silent_ok ev true c msgs1 o = true -> coordinator_unresponsive (e_tm ev) c msgs1 = true -> e_self ev <> c ->
+  exists cs, o_elected o = Some cs /\ ~ In c cs /\ (forall p, In p (e_holders ev) -> p <> c -> In p cs)
+             /\ (forall p, In p (o_ready2 o) -> p <> c).
 Proof.
-  intros ev c msgs1 o H Hu. unfold silent_ok in H. rewrite Hu in H. unfold spec_ok in H.
-  apply andb_true_iff in H. destruct H as [_ H]. cbn [negb] in H.
+  intros ev c msgs1 o H Hu Hne. unfold silent_ok in H. rewrite Hu in H. unfold spec_ok in H.
+  apply andb_true_iff in H. destruct H as [H0 H]. apply andb_true_iff in H0. destruct H0 as [_ _]. cbn [negb] in H.
   assert (Hk : recognised_kinds (pool_join [Node (KCoord c) []]) = [KCoord c]) by reflexivity.
   rewrite Hk in H. cbn [existsb action_of_kind] in H. rewrite orb_false_r in H.
-  destruct (obs_allows_retry_sound _ _ _ _ H) as [cs [He [H1 [H2 _]]]].
-  exists cs. split; [exact He|]. split.
+  assert (Hs : ~ In (e_self ev) [c]) by (intros [E|[]]; apply Hne; symmetry; exact E).
+  destruct (obs_allows_retry_sound _ _ _ _ H Hs) as [cs [He [H1 [H2 [_ [_ [_ [H6 _]]]]]]]].
+  exists cs. split; [exact He|]. split; [|split].
   - apply H1. left. reflexivity.
-  - intros p Hp Hne. apply H2; [exact Hp|]. intros [Hx|[]]. apply Hne. symmetry. exact Hx.
+  - intros p Hp Hn. apply H2; [exact Hp|]. intros [Hx|[]]. apply Hn. symmetry. exact Hx.
+  - intros p Hp Hpc. destruct (H6 p Hp) as [_ Hn]. apply Hn. left. symmetry. exact Hpc.
 Qed.
 
 (* an accepted two-relayer observation: a key holder the coordinator's subset leaves out ran its first
@@ -850,4 +1064,23 @@ Proof.
   assert (Hk : recognised_kinds left_out_error = [KSubset]) by reflexivity.
   rewrite Hk in H. cbn [existsb action_of_kind] in H. rewrite orb_false_r in H.
   destruct (obs_allows_wait_sound _ _ _ H) as [H1 [H2 _]]. split; assumption.
+Qed.
+
+(* as coded the full statement fails: a key holder that is not the first candidate accepts the
+   announcement of an excluded peer *)
+Lemma bully_open_seat_refuted :
+  exists (key : peer -> N) self bs cands,
+    In self cands /\ bully_guarded (bully_coded key self bs cands) self cands = false.
+Proof.
+  exists (fun p : peer => match p with 0 => 50 | 1 => 90 | 2 => 70 | 3 => 10 | _ => 5 end%N), 0%N, [BSelect 2%N], [0; 1; 3]%N.
+  split; [left; reflexivity | vm_compute; reflexivity].
+Qed.
+
+(* whatever the failure value, an accepted session did not end in a panic of the relayer *)
+Lemma spec_ok_no_panic : forall ev retryable e nfirst o,
+  spec_ok ev retryable e nfirst o = true -> o_final o <> FPanic.
+Proof.
+  intros ev retryable e nfirst o H. unfold spec_ok in H.
+  apply andb_true_iff in H. destruct H as [H _]. apply andb_true_iff in H. destruct H as [H _].
+  apply negb_true_iff in H. apply N.eqb_neq in H. exact H.
 Qed.
